@@ -257,6 +257,17 @@ def generate(rng, tier):
             err = rng.choice((0, 0, 0, 17))
             how = rng.randrange(3)
             text = 'id:%s sub:001 dlvrd:001 submit date:2501011200 done date:2501011201 stat:DELIVRD err:%03d text:x' % (mid, err)
+            if rng.random() < 0.3:
+                # a receipt for a known id whose other fields are not what the format prescribes (vendor codes, empty or
+                # missing fields): whatever the parser makes of them meets a correlator that knows the id
+                bad = rng.choice(('err:E42', 'err:', 'err:-1', 'err:1_0', 'sub:abc', 'dlvrd:', 'submit date:25010112',
+                                  'done date:9913011201', 'stat:', 'err:0x11', 'err:' + '9' * 40))
+                key = bad.split(':')[0]
+                parts = text.split(' text:')[0]
+                import re as _re
+                parts = _re.sub(r'%s:[^ ]*( |$)' % _re.escape(key) if ' ' not in key else r'%s:[0-9]*( |$)' % _re.escape(key),
+                                bad + ' ', parts + ' ').strip()
+                text = parts + ' text:x'
             extra = b''
             if how == 1:        # id only in the receipted_message_id parameter
                 text = text[len('id:%s ' % mid):]
